@@ -131,5 +131,18 @@ func checkDefs() map[string]CheckDef {
 		BoundsText: "primitive read sites (fixed-size scalars via binary.Read, uint64, [32]byte via io.ReadFull, string, ByteSlice, BigInt): symbolic content, payload up to 6 bytes (8 thorough), every partition of the encoding into chunks (all 2^(n-1)), two following bytes must stay unread; perunio envelope serializer: two consecutive envelopes (Ping, ChannelUpdateAcc [, ChannelProposalRej]) under: all at once, uniform chunks of 1..8 bytes, one cut at every position, two cuts at every position with distance 1..3; protobuf serializer: the same family plus every partition of the first frame and the second frame's length prefix",
 		Outside:    []string{"envelopes longer than a network segment are the same code path but are not executed at that size", "proto.Marshal/Unmarshal", "readers that return 0 bytes without error"},
 	})
+	add(CheckDef{
+		ID: "C19",
+		Obligations: []Obligation{
+			{Pkg: "internal/verifh/c19", Harness: "VerifC19Values", Quick: map[string]int{"K": 1, "exact": 1, "maxA": 1, "maxS": 1}, Thor: map[string]int{"maxA": 2, "maxS": 2}, TV: 40},
+			{Pkg: "internal/verifh/c19", Harness: "VerifC19Params", Quick: map[string]int{"K": 1, "exact": 1}, TV: 20},
+			{Pkg: "internal/verifh/c19", Harness: "VerifC19Machines", Quick: map[string]int{"K": 1, "exact": 1}, TV: 30},
+		},
+		Assumptions: append(append([]string{}, commonAssumptions...), cryptoAssumptions[0],
+			"sharing is detected by mutating one side through every mutable location reachable from it (in-place big.Int addition of a non-zero delta, slot replacement, index-map entries, ID and signature bytes, app data in place, nonce, address coordinates, address map entries) and comparing the other side with an independent deep snapshot taken before",
+			"allowed sharing (as documented): app definitions, asset identifiers, signing accounts, loggers; FromSource stores the peers slice and parent pointer it is given (not part of the property's list)"),
+		BoundsText: "Allocation/State/Transaction: 1 asset (2 thorough), 1..2 participants, locked nil/empty/1 sub-allocation (2 thorough) with nil/empty/full index map, NoApp or MockApp with data, signatures nil/all-nil/any subset; Balances 0..2 x 0..2 and nil; CloneSigs; Params with 2..3 participants; machines (StateMachine, ActionMachine, CloneSource, FromSource) in any phase with staging/current transactions absent or present (with locked funds and partial signatures); the mutation is applied to the original or to the clone (both directions)",
+		Outside:    []string{"larger dimensions", "backends other than sim"},
+	})
 	return defs
 }
